@@ -14,7 +14,7 @@ for fn in os.listdir(src):
         shutil.copytree(src + "/" + fn, dst + "/" + fn, dirs_exist_ok=True)
 head = subprocess.run(["git", "-C", "/repo", "rev-parse", "--short", "HEAD"], capture_output=True, text=True).stdout.strip()
 meta = dict(id=sid, property=prop, summary=summary, needs=needs,
-            author="fresh sub-agent given only the property text and a scratch git worktree of /repo (HEAD %s), second round" % head,
+            author="fresh sub-agent given only the property text and a scratch git worktree of /repo (HEAD %s), tenth round (two cooperating edits / change outside the central mechanism)" % head,
             confirmed="tools/verify_seed.sh in a scratch worktree: git apply ok, go build ok, suite passes 3x, demonstration passes without the change and fails with it",
             ran="tools/try_seed.sh patch.diff (all 18 checks against a scratch copy with the patch applied); python3 tools/controls.py seeded/",
             caught_by=caught)
